@@ -36,6 +36,11 @@ def main(argv):
                     if v.status != "discharged":
                         print("      path", v.path, v.reason)
                         print("      " + (v.model or "").replace("\n", "\n      ")[:3000])
+        for n_ in r.notes:
+            print("   note:", n_[:300])
+        con_ = spec.CONTRACTS.get(r.qual)
+        if con_ is not None and con_.ensures and not r.error and not any(v.kind == "post" for v in r.vcs):
+            print("   VACUOUS: the contract has postconditions but no path reaches the end of the function")
         feas = [k for k, (st, _) in cres.items() if k.startswith(r.qual + "::cover") and st != "unsat"]
         allc = [k for k in cres if k.startswith(r.qual + "::cover")]
         ent = cres.get(f"{r.qual}::cover::entry")
